@@ -298,7 +298,7 @@ struct KbPlan {
   nonce_opt: u8,          // 0 None, 1 equal, 2 different
   aud_opt: u8,
   window: u8,             // 0 no earliest/explicit latest far, 1 [E,L] explicit, 2 latest unset (wall clock)
-  iat_pos: u8,            // window 1: 0 E-1, 1 E, 2 inside, 3 L, 4 L+1 ; window 2: 0 a day ago, 1 a day ahead ; window 0: any
+  iat_pos: u8,            // window 1: 0 E-1, 1 E, 2 inside, 3 L, 4 L+1 ; window 2: 0 a day ago, 1 a day ahead, 2 five seconds ahead ; window 0: any
   n_disclosures: usize,
 }
 
@@ -377,7 +377,7 @@ impl KbPlan {
     }
     match (self.window, self.iat_pos) {
       (1, 0) | (1, 4) => f.push("iat-window"),
-      (2, 1) => f.push("iat-window"),
+      (2, 1) | (2, 2) => f.push("iat-window"),
       _ => {}
     }
     f
@@ -430,6 +430,7 @@ fn build_kb(rng: &mut Rng, p: &KbPlan, issuer_jwt: &str) -> (SdJwt, KeyBindingJW
     (1, 3) => L,
     (1, _) => L + 1,
     (2, 0) => now - 86_400,
+    (2, 2) => now + 5, // a few seconds in the future: judged only if it is still in the future after the call returned
     (2, _) => now + 86_400,
     _ => 1_500_000_000,
   };
@@ -648,6 +649,15 @@ impl Cx {
     self.rep.distinct("condition_vectors", &format!("kb|{}", falsified.join("+")));
     let validator = SdJwtCredentialValidator::with_signature_verifier(EdDSAJwsVerifier::default(), SdObjectDecoder::new_with_sha256());
     let r = catch(|| validator.validate_key_binding_jwt(&sd, &self.holder, &o));
+    if p.window == 2 && p.iat_pos == 2 {
+      // sound only if the signed iat is still ahead of the wall clock now that the call has returned
+      let now_after = Timestamp::now_utc().to_unix();
+      if now_after >= claims["iat"].as_i64().unwrap_or(i64::MIN) {
+        self.rep.inc("near_future_case_not_judged");
+        return;
+      }
+      self.rep.inc("near_future_cases_judged");
+    }
     match r {
       Err(pn) => self.rep.violation(&format!("validate_key_binding_jwt-panic@{}", pn.file_only()), &format!("KB-JWT validation panicked ({:?} false): {} at {}", falsified, pn.msg, pn.loc()), case),
       Ok(Ok(c)) => {
@@ -741,7 +751,7 @@ fn mutate_kb(rng: &mut Rng, p: &mut KbPlan, w: u64) {
     }
     10 => {
       p.window = 2;
-      p.iat_pos = 1;
+      p.iat_pos = 1 + rng.below(2) as u8;
     }
     11 => p.typ = 1, // the spec spelling (legal)
     _ => {
